@@ -452,4 +452,45 @@ theorem run_consumed_dead : ∀ (cs : List (Call × Obs)) (h h' : Heap) (outs : 
         · left; simp [hi]
         · right; exact hi
 
+theorem newObjs_live (h : Heap) (c : Call) (n : Nat) (o : Obj) (ho : o ∈ newObjs h c n) : o.live = true := by
+  unfold newObjs at ho
+  cases hres : c.res with
+  | none => simp [hres] at ho
+  | owned k => simp only [hres, List.mem_replicate] at ho; rw [ho.2]
+  | ownedMany k => simp only [hres, List.mem_replicate] at ho; rw [ho.2]
+  | borrowed k => simp only [hres, List.mem_replicate] at ho; rw [ho.2]
+
+theorem range_shift_nodup (n k : Nat) : ((List.range n).map (· + k)).Nodup := by
+  rw [List.nodup_iff_pairwise_ne, List.pairwise_map]
+  have := @List.nodup_range n
+  rw [List.nodup_iff_pairwise_ne] at this
+  exact this.imp (by intro a b hab; omega)
+
+/-! ### executable views of a run (for examples and the driver) -/
+
+def accepted (cs : List (Call × Obs)) : Bool :=
+  match run [] cs with
+  | .ok _ => true
+  | .error _ => false
+
+def heapAfter (cs : List (Call × Obs)) : Heap :=
+  match run [] cs with
+  | .ok (h, _) => h
+  | .error _ => []
+
+def allOwnedConsumed (h : Heap) (cs : List (Call × Obs)) : Bool :=
+  (List.range h.length).all (fun i =>
+    match h[i]? with
+    | some o => o.owner != none || (consumedAll cs).contains i
+    | none => true)
+
+theorem allOwnedConsumed_spec (h : Heap) (cs : List (Call × Obs)) (hb : allOwnedConsumed h cs = true) :
+    ∀ (i : Id) (o : Obj), h[i]? = some o → o.owner = none → i ∈ consumedAll cs := by
+  intro i o hg ho
+  simp only [allOwnedConsumed, List.all_eq_true, List.mem_range] at hb
+  have hlt : i < h.length := (List.getElem?_eq_some_iff.mp hg).1
+  have := hb i hlt
+  simp only [hg, ho, bne_self_eq_false, Bool.false_or, List.contains_eq_mem, decide_eq_true_eq] at this
+  exact this
+
 end GeosModel.Api
